@@ -607,6 +607,17 @@ func dischargeShared(fx *FnExec, obls []*Obligation, opt dischargeOpts, slots ch
 			}
 			r := Solve(script, opt.workdir, o.Name, to, opt.all && !o.Cover)
 			o.Status, o.Backend, o.Ms, o.Output = r.Status, r.Backend, r.Ms, r.Output
+			if o.Status != "unsat" && !o.Cover {
+				for i, alt := range o.Alts {
+					s2 := c.Query(o.Assume, c.Implies(o.PC, alt), nil, to)
+					r2 := Solve(s2, opt.workdir, fmt.Sprintf("%s.alt%d", o.Name, i), to, false)
+					o.Ms += r2.Ms
+					if r2.Status == "unsat" {
+						o.Status, o.Backend, o.Output = "unsat", r2.Backend+"+witness", r2.Output
+						break
+					}
+				}
+			}
 		}(o, script)
 	}
 	wg.Wait()
